@@ -224,6 +224,12 @@ def get_argparse_type_for_container(
         from simple_parsing.wrappers.field_parsing import parse_enum
 
         return parse_enum(T)
+    if is_union(T):
+        # e.g. `List[Union[int, str]]` or `list[int | str]`: the Union itself can't be called to
+        # convert an item, use the function that tries its members in order.
+        from simple_parsing.wrappers.field_parsing import get_parsing_fn
+
+        return get_parsing_fn(T)
     return T
 
 
